@@ -6,6 +6,7 @@ CONSTANTS
   ClassSel = "alias"
   FirstSel = "four"
   CollectMode = "byname"
+  FbMode = "faithful"
 INIT Init
 NEXT Next
 INVARIANT HandlersPreserved
